@@ -55,6 +55,12 @@ CLAIMED = {
         text='Histories are covered by induction instead of enumeration: from any cache state satisfying "remembered answer == validator outcome" (every size 0..20, any key hit or miss, either expect_failure) '
              'one real call is shown to answer like a fresh process and to re-establish the invariant; 2-3 call sequences are explored on top. Counterexamples are replayed through the public API.',
         note='jsonschema and file I/O are stubs (uninterpreted outcome per file); facts about the bundled files are concrete runs of the plain library with sockets disabled, reported as such.'),
+    'C05': dict(
+        category='model_checking', design_ref='DESIGN.md section 3 C05, 2.3',
+        technique='symbolic execution of the real scoring functions on two adjacent symbolic grid marks; doubles abstracted as reals with an uninterpreted monotone rounding function; z3 (cvc5 when z3 answers unknown) discharges order and bound obligations',
+        text='For every table row the two marks k, k+1 are solver integers ranging over and beyond the tabulated range, so each obligation covers every adjacent pair of the row at once; '
+             'order over arbitrary pairs follows by transitivity. The float abstraction (monotone rounding, monotone pow/square) is sound for order statements; candidate counterexamples are replayed on the real doubles.',
+        note='Assumes IEEE rounding is monotone and libm pow is monotone in its base; values through pow are not modelled. Table lookups are exact (run-length If-trees). One known finding (Bulgarian U16 F 600 table typo).'),
 }
 
 NOT_APPLICABLE = {
